@@ -1,5 +1,5 @@
 from collections.abc import Callable
-from typing import TypeVar
+from typing import TypeVar, cast
 
 from reactivex import ConnectableObservable, Observable, abc
 from reactivex import operators as ops
@@ -48,8 +48,12 @@ def publish_value_(
 
         return ops.multicast(subject_factory=subject_factory, mapper=mapper)
 
-    subject = BehaviorSubject(initial_value)
-    return ops.multicast(subject)
+    def publish_value(source: Observable[_T1]) -> ConnectableObservable[_T1]:
+        # one subject per application of the operator to a source
+        subject = BehaviorSubject(initial_value)
+        return cast(ConnectableObservable[_T1], ops.multicast(subject)(source))
+
+    return publish_value
 
 
 __all__ = ["publish_value_"]
